@@ -357,6 +357,7 @@ def cmd_check(args):
     stop = False
     max_runs = int(args.max_runs or t["max_runs"])
     chunk = 4
+    first_viol_at = None
     try:
         while True:
             while not stop and len(pending) < workers * 2 and nxt < max_runs and time.time() - t0 < budget:
@@ -374,8 +375,13 @@ def cmd_check(args):
                     if "harness_error" in s or (not s.get("ok", True)):
                         if len(agg.violations) >= 3 or agg.harness_errors:
                             stop = True
-            if agg.violations and time.time() - t0 > budget * 0.5:
-                stop = True
+            if agg.violations:
+                if first_viol_at is None:
+                    first_viol_at = time.time()
+                # a few more seconds for further failing runs (alternatives if the first
+                # does not reproduce under process isolation), then report
+                if time.time() - first_viol_at > 10 or time.time() - t0 > budget * 0.5:
+                    stop = True
     except (HarnessError, cf.process.BrokenProcessPool) as e:
         print("HARNESS-ERROR %s: %s" % (prop, e))
         pool.shutdown(wait=False, cancel_futures=True)
